@@ -24,7 +24,7 @@ CHECKS = {
         design_ref="DESIGN.md 6/C01", note=TRUST),
     "C02": dict(
         technique="runtime monitoring: differential oracle - every recorded result of the real code compared byte-for-byte with an independent executable RFC 9180 (both directions)",
-        text="Exploration with an independent reference: all 48 suites x 4 modes, impl-as-sender under scripted RNG bytes and reference-as-sender transcripts, both single-shot forms, argument-aliasing sessions (info = psk_id, randomness that derives a key already in play, enc = pkR, ...), length sweeps 0..2200 of exporter context / info / psk / psk_id / aad, 300-message (thorough 70 000) sessions; on the overflow-checked and the release build (thorough: also at opt-level 0, 1, s, z and with target-cpu=native). Any symmetric change to labels, ids, orders, mode bytes or nonce layout shows up as a byte difference. The reference is anchored on published vectors at the start of each run.",
+        text="Exploration with an independent reference: all 48 suites x 4 modes, impl-as-sender under scripted RNG bytes and reference-as-sender transcripts, both single-shot forms, argument-aliasing sessions (info = psk_id, randomness that derives a key already in play, enc = pkR, ...), length sweeps 0..2200 of exporter context / info / psk / psk_id / aad, 300-message (thorough 70 000) sessions; on the overflow-checked and the release build (thorough: also at opt-level 0, 1, s, z and with target-cpu=native, and with info / psk / psk_id / exporter context / ikm strings of 2^32+5 bytes). Any symmetric change to labels, ids, orders, mode bytes or nonce layout shows up as a byte difference. The reference is anchored on published vectors at the start of each run.",
         design_ref="DESIGN.md 3, 6/C02", note=TRUST),
     "C03": dict(
         technique="runtime monitoring: differential oracle for the KEM layer (DeriveKeyPair/GenerateKeyPair/Encap/Decap/Auth variants) against the reference, with directed rare-event inputs",
@@ -36,15 +36,15 @@ CHECKS = {
         design_ref="DESIGN.md 6/C04", note=TRUST + " Positions beyond the burst prefix are reached with the set_seq hook."),
     "C05": dict(
         technique="runtime monitoring: offline checker of recorded delivery histories against an abstract receiver model (position + latch); acceptance decided from recorded bytes only",
-        text="Exploration of adversarial histories (next/replay/future/bit-flips/truncation/extension/garbage/mixed tag/alias replays at p + k*2^(8j), both APIs, positions 0, random, byte carries, 2^64-3.. across exhaustion), a run of 66 000+ rejected deliveries on one context, on checked and release builds; genuine AES-GCM messages constructed to carry chosen tag values (all-zero, all-FF, ...) must be accepted; thorough: alias replays under Miri for i686, s390x and aarch64. Found F1 (open() on an exhausted context answered short inputs with OpenError), fixed in /repo 7e92e6f.",
+        text="Exploration of adversarial histories (next/replay/future/bit-flips/truncation/extension/garbage/mixed tag/alias replays at p + k*2^(8j), both APIs, positions 0, random, byte carries, 2^64-3.. across exhaustion), a run of 66 000+ rejected deliveries on one context, on checked and release builds; genuine AES-GCM messages constructed to carry chosen tag values (all-zero, all-FF, ..., and the tag of an earlier message of the same context) must be accepted; thorough: alias replays under Miri for i686, s390x and aarch64. Found F1 (open() on an exhausted context answered short inputs with OpenError), fixed in /repo 7e92e6f.",
         design_ref="DESIGN.md 6/C05, 7", note=TRUST),
     "C06": dict(
         technique="runtime monitoring: tamper oracle over recorded opens - any delivered (ct, tag, aad) that differs from what the sender produced must yield OpenError on all four opening interfaces",
-        text="Exploration with exhaustive single-bit flips for small messages (every bit of ct, tag and aad), every truncation length, extensions of ct/aad/tag, cross-message substitutions, alternative framings of the genuine bytes (tag first, rotated, reversed, enc/pkR/tag glued on), messages at the last sequence numbers, aad beyond 65535 bytes, a run of 66 000 modified messages against one receiver, directed tags ending in zero bytes; streaming and single-shot, allocating and in-place; a control open per message keeps the receiver positioned.",
+        text="Exploration with exhaustive single-bit flips for small messages (every bit of ct, tag and aad), every truncation length, extensions of ct/aad/tag, cross-message substitutions, alternative framings of the genuine bytes (tag first, rotated, reversed, enc/pkR/tag glued on), messages at the last sequence numbers, aad beyond 65535 bytes, a run of 66 000 modified messages against one receiver, directed tags ending in zero bytes; streaming and single-shot, allocating and in-place; a control open per message keeps the receiver positioned; slices on the release build and on a build with --cfg fuzzing.",
         design_ref="DESIGN.md 6/C06", note=TRUST),
     "C07": dict(
         technique="runtime monitoring: differential perturbation oracle - one setup component changed on the receiver, then open and 32/64-byte exports compared with the sender's own",
-        text="Exploration: every suite, every single-bit flip of info/psk/psk_id (<= 40 bytes), prefix/suffix edits, boundary shifts between fields, mode swaps with identical PSK data, other KDF/AEAD (same key bytes presented to a receiver of another suite), other recipient key, other/bit-flipped/non-canonical encapsulated keys; baseline must work or the session is inconclusive.",
+        text="Exploration: every suite, every single-bit flip of info/psk/psk_id (<= 40 bytes), prefix/suffix edits, boundary shifts between fields, mode swaps with identical PSK data, other KDF/AEAD (same key bytes presented to a receiver of another suite), other recipient key, other/bit-flipped/non-canonical encapsulated keys; baseline must work or the session is inconclusive; thorough: info / psk / psk_id of 2^32+5 bytes differing in one byte near either end.",
         design_ref="DESIGN.md 6/C07", note=TRUST),
     "C08": dict(
         technique="runtime monitoring: impostor oracle - ciphertexts and exports of senders lacking the identity key or PSK presented to a receiver expecting the honest sender, with a positive control",
@@ -60,7 +60,7 @@ CHECKS = {
         design_ref="DESIGN.md 6/C10", note=TRUST),
     "C11": dict(
         technique="runtime monitoring: export oracle - LabeledExpand recomputed in Python from the exporter secret the live context reports through a hook; purity/symmetry checks across recorded histories; panic observation for export-only suites",
-        text="Exploration: 192 suite/mode cells, both roles, exporter contexts up to 64 KiB, lengths around every bound (every L within 40 of 255*Nh; thorough: every L in 0..16400), exports interleaved with seals, opens and failed opens, after exhaustion, after 66 000 rejected opens and after every caught export-only panic; a panic=abort build of the driver runs each export-only seal/open form as the last call of its own process, which must die by SIGABRT with the library's panic message.",
+        text="Exploration: 192 suite/mode cells, both roles, exporter contexts up to 64 KiB, lengths around every bound (every L within 40 of 255*Nh; thorough: every L in 0..16400), exports interleaved with seals, opens and failed opens, after exhaustion, after 66 000 rejected opens and after every caught export-only panic; thorough: an exporter context of 2^32+5 bytes; a panic=abort build of the driver runs each export-only seal/open form as the last call of its own process, which must die by SIGABRT with the library's panic message.",
         design_ref="DESIGN.md 6/C11", note=TRUST),
     "C12": dict(
         technique="runtime monitoring: serialization oracle - sizes vs the RFC table, round trips, re-serialization, exact error payloads and write_exact panic behaviour for every length 0..2*size+2",
@@ -68,7 +68,7 @@ CHECKS = {
         design_ref="DESIGN.md 6/C12", note=TRUST),
     "C13": dict(
         technique="sanitizers + panic/abort monitor: one hostile workload replayed under overflow-checked, release and AddressSanitizer builds (thorough: valgrind memcheck, Miri, coverage census); every call under catch_unwind with call-before-invoke logging",
-        text="Exploration of every byte-consuming entry point over all 144 cells with malformed, boundary-length and 64 KiB (thorough 1 MiB) inputs; a panic, an abort, an overflow trap, a sanitizer report or a wrong setup error class is a violation.",
+        text="Exploration of every byte-consuming entry point over all 144 cells with malformed, boundary-length and 64 KiB (thorough 1 MiB) inputs; a panic, an abort, an overflow trap, a sanitizer report or a wrong setup error class is a violation; the workload also runs with every session on a 64 KiB-stack thread (a stack overflow is an abort); thorough: memcheck, Miri, messages and strings of 2^32+5 bytes on the debug-assertion build.",
         design_ref="DESIGN.md 5, 6/C13", note=TRUST + " Sanitizers see only code the workload reaches."),
     "C14": dict(
         technique="runtime monitoring: differential oracle inside one session - single-shot vs composed calls under identical scripted RNG bytes, allocating vs in-place forms on twin contexts",
@@ -76,7 +76,7 @@ CHECKS = {
         design_ref="DESIGN.md 6/C14", note=TRUST),
     "C15": dict(
         technique="runtime monitoring: validation oracle for PskBundle::new plus reference comparison with hypothesis-based attribution (swapped / dropped psk or psk_id, mode byte) before a mismatch is reported",
-        text="Exploration: all emptiness combinations at 8 lengths (incl. all-zero non-empty strings); routing for all 48 suites x 4 modes. A mismatch is only a C15 violation when a PSK-routing hypothesis reproduces the real output or it is confined to one mode family.",
+        text="Exploration: all emptiness combinations at 8 lengths (incl. all-zero non-empty strings); routing for all 48 suites x 4 modes. A mismatch is only a C15 violation when a PSK-routing hypothesis reproduces the real output or it is confined to one mode family. Whether a bundle can be brought into a lone-half state other than through new() is asked of the compiled crate's surface (rustdoc JSON): a public field is emptied by a generated program.",
         design_ref="DESIGN.md 6/C15", note=TRUST),
     "C16": dict(
         technique="runtime monitoring: memory-observing monitors - slot photographs around drop_in_place, liveness probe (in-place inversion of every sighting + behaviour comparison), transformed-copy needles, freed-memory residue seen by the driver's own allocator (also on the shipping build: guard off, release), plus a drop-ledger hook",
@@ -88,6 +88,6 @@ CHECKS = {
         design_ref="DESIGN.md 6/C17", note=TRUST, category="exploration"),
     "C18": dict(
         technique="runtime monitoring + race detection: per-session transcripts under permuted, interleaved, threaded, migrating placements on alloc, std and no-alloc builds compared with the sequential run; history probes; shared-reference exports, shared and reused key objects, decapsulation storms; hang analysis; ThreadSanitizer (thorough: Miri); compile-time Send+Sync probe",
-        text="Exploration of placements with schedule evidence (threads used, session switches, distinct global orders observed); a run whose parallel placements never overlapped is inconclusive. Process-level dependencies: sessions in a driver that creates no thread, traced with strace (any clone with CLONE_THREAD is the library's), and a round trip made from a thread-local destructor while its thread exits.",
+        text="Exploration of placements with schedule evidence (threads used, session switches, distinct global orders observed); a run whose parallel placements never overlapped is inconclusive. Process-level dependencies: every session on a 64 KiB-stack thread; an RNG that itself uses the library (key generation + round trip) before every draw; sessions in a driver that creates no thread, traced with strace (any clone with CLONE_THREAD is the library's), and a round trip made from a thread-local destructor while its thread exits.",
         design_ref="DESIGN.md 6/C18", note=TRUST),
 }
